@@ -383,6 +383,14 @@ def families(rng):
     add("long-link", [(0, 1), (1, 2)], {0: "ramp_out"}, {2: "cong"},
         linkmk=lambda r, c=itertools.count(): [dict(N=12, lanes=3, vsl=None), dict(N=2, lanes=3, vsl=[0])][next(c) % 2])
     add("merge-simp-unl", [(0, 2), (1, 2), (2, 3)], {0: "main", 1: "ideal", 2: "simp_unl"}, {3: "free"}, delta=True)
+    # action names interleave in element order (r, q, r; v_ctrl of a VSL link, r, v_ctrl of the mainstream origin):
+    # grouping by variable name and stacking by element differ
+    add("interleaved-actions", [(0, 1), (1, 2), (2, 3), (3, 4)], {0: "ramp_out", 1: "simp_lim", 2: "ramp_in", 3: "simp_unl"},
+        {4: "cong"}, delta=True)
+    # the ramp's node is inserted before the node of the mainstream origin (downstream section added first)
+    add("ramp-before-main", [(1, 2), (2, 3), (0, 1)], {0: "main", 1: "ramp_out", 2: "simp_lim"}, {3: "cong"}, delta=True,
+        linkmk=lambda r, c=itertools.count(): [dict(N=2, lanes=2, vsl=[0]), dict(N=1, lanes=2, vsl=None),
+                                               dict(N=2, lanes=2, vsl=[1])][next(c) % 3])
     add("merge-merge", [(0, 2), (1, 2), (2, 4), (3, 4), (4, 5)], {0: "main", 1: "ideal", 3: "ramp_out"}, {5: "free"})
     add("merge-bifur-merge", [(0, 2), (1, 2), (2, 3), (2, 4), (3, 5), (4, 5), (5, 6)], {0: "main", 1: "ideal"},
         {6: "cong"})
